@@ -6,7 +6,7 @@ import sys, os, json, subprocess, tempfile
 i = sys.argv.index('--')
 rel, old, new = sys.argv[1:4]
 src = open(os.path.join('/repo', rel)).read()
-if src.count(old) != 1:
+if src.count(old) != 1 and not (os.environ.get('MUTATE_ALL') and src.count(old) > 1):
     print("mutate: old text occurs %d times" % src.count(old)); sys.exit(3)
 d = tempfile.mkdtemp(prefix='turnvc-mut-')
 mf = os.path.join(d, os.path.basename(rel))
